@@ -403,7 +403,19 @@ class SuffixWiringPart(Part):
         P4 = [a ^ ((1 << (b4 or 0)) - 1) & 0x55555555 for a in W4] if b4 else []
         P6 = [a ^ ((1 << (b6 or 0)) - 1) & int("5" * 32, 16) for a in W6] if b6 else []
         items = [("4", a) for a in W4 + P4] + [("6", a) for a in W6 + P6]
-        text = "".join("a %s b\n" % (refs.v4_text(a) if f == "4" else refs.v6_text(a)) for f, a in items)
+        # the same IPv6 addresses once more, spelled with a dotted-quad tail (one token, one address)
+        items += [("6d", a) for a in (W6 + P6)[::2]]
+
+        def spell(f, a):
+            if f == "4":
+                return refs.v4_text(a)
+            if f == "6":
+                return refs.v6_text(a)
+            groups = ipaddress.IPv6Address(a).exploded.split(":")[:6]
+            return ":".join(g.lstrip("0") or "0" for g in groups) + ":" + refs.v4_text(a & 0xFFFFFFFF)
+
+        text = "".join("a %s b\n" % spell(f, a) for f, a in items)
+        items = [("6" if f == "6d" else f, a) for f, a in items]
         kw = {}
         if b4 is not None:
             kw["preserve_suffix_v4"] = b4
